@@ -21,7 +21,10 @@ Judged(c, i) == c.l.cons[i].mode # "QE_TR" \/ c.mode = "bidirectional"
 
 CaseClauses(c) ==
     LET x == c.l IN
-    IF c.outcome = "PipeflowNotConverged" THEN {}       \* the properties speak about returned calculations
+    (* the properties speak about returned calculations: a run that does not converge, or that the library refuses because the  *)
+    (* iteration ended in a state with reverse flow through the circulation pump (how it fails is C05's business, finding F20), *)
+    (* is not judged here                                                                                                      *)
+    IF c.outcome \in {"PipeflowNotConverged", "raised:UserWarning:circ_pump_direction"} THEN {}
     ELSE IF c.outcome # "returned" THEN {<<"C11.not_returned", c.outcome, c.mode>>} ELSE
     UNION {
       (* always: the reported heat of every consumer is mass flow x cp x reported temperature drop (1 % + 50 W) *)
